@@ -280,3 +280,32 @@ Proof.
     destruct E as [b [P _]]. now exists b.
   - repeat split; vm_compute; reflexivity.
 Qed.
+
+(** * Full statements on the current tree
+
+    The three `_partial` theorems above carry a hypothesis about a GENERATED fact of the source (the grouping container
+    of plug.rs, the default-world rule of targets.rs, the README lines). On the current tree (after the repairs 415d296,
+    9a9d9f7, 9cbb1bc) the generated facts satisfy those hypotheses, so the property's full statements hold outright.
+    A change that brings one of the defects back changes the generated table, and the proof below no longer checks. *)
+
+Theorem plug_exit_zero_iff_pipeline_ok_full : forall (w : pworld) (f : plug_flags),
+  exit_code (plug_in w f) = 0 <->
+  exists b, plug_pipeline_in w f b /\
+            sink_ok (pw_print_text w) (pw_write_ok w) (psw_wat (pf_sw f)) (pf_output f) (pw_tty w) b.
+Proof. intros w f. apply plug_exit_zero_iff_pipeline_ok_partial. left. reflexivity. Qed.
+Print Assumptions plug_exit_zero_iff_pipeline_ok_full.
+
+Theorem plug_registrations_documented_full : forall hash_order ks,
+  registrations hash_order ks = documented_registrations ks.
+Proof. intros h ks. apply plug_registrations_documented_partial. left. reflexivity. Qed.
+Print Assumptions plug_registrations_documented_full.
+
+Theorem targets_default_world_full : forall W (exports : list (str * wit_export W)),
+  select_world exports None = documented_world exports None.
+Proof. intros W exports. apply targets_default_world_partial. left. reflexivity. Qed.
+Print Assumptions targets_default_world_full.
+
+Theorem readme_examples_accepted_full :
+  forallb (fun e => accepts cli_flags e) readme_examples = true.
+Proof. vm_compute. reflexivity. Qed.
+Print Assumptions readme_examples_accepted_full.
